@@ -283,6 +283,13 @@ class SymMem:
         del self[k]
         return v
 
+    def setdefault(self, k, default=None):
+        try:
+            return self[k]
+        except KeyError:
+            self[k] = default
+            return default
+
     def __contains__(self, k):
         if self.total:
             return True
